@@ -1,10 +1,10 @@
 SPECIFICATION Spec
 CONSTANTS
   NoFinally = FALSE
-  CloseUnwinds = TRUE
+  CloseUnwinds = FALSE
   AllowReentry = FALSE
-  MaxLen = 4
-  MaxOps = 5
+  MaxLen = 3
+  MaxOps = 4
 INVARIANT ScopeRestored
 INVARIANT Balanced
 INVARIANT HistoryFree
